@@ -193,13 +193,16 @@ Proof. exact scope_inv_initial. Qed.
 
 Example wf_page_two_root_siblings :
   wf_page two_root_siblings = true /\
-  trace_of two_root_siblings = [PEnter 1; CReg 2 [1]; CInject 2 1; CDone 2; CReg 3 [1]; CInject 3 1; CDone 3; PExit 1]%N.
+  trace_of two_root_siblings = [PEnter 1; CInject 2 1; CReg 2 [1]; CDone 2; CDone 2;
+                                CInject 3 1; CReg 3 [1]; CDone 3; CDone 3; PExit 1]%N.
 Proof. vm_compute. split; reflexivity. Qed.
 
-(* nested components are rendered only after the provider around their tag has exited (PExit 3 precedes CReg 5) *)
+(* nested components are rendered only after the provider around their tag has exited (PExit 3 precedes CInject 5 3);
+   component 4 injects once more while its template renders (on_render_before); the root 2 finally sweeps its tree *)
 Example wf_page_nested_deferred :
-  let page := [Prov 1 [Comp true 2 [1] [] [Prov 3 [Comp false 4 [3; 1] [3] [Comp false 5 [3] [3] []]]; Comp false 6 [1] [1] []]]]%N in
+  let page := [Prov 1 [Comp true 2 [1] [] [] [Prov 3 [Comp false 4 [3; 1] [3] [1] [Comp false 5 [3] [3] [] []]]; Comp false 6 [1] [1] [] []]]]%N in
   wf_page page = true /\
-  trace_of page = [PEnter 1; CReg 2 [1]; PEnter 3; CReg 4 [3; 1]; CInject 4 3; PExit 3; CReg 6 [1]; CInject 6 1;
-                   CReg 5 [3]; CInject 5 3; CDone 5; CDone 4; CDone 6; CDone 2; PExit 1]%N.
+  trace_of page = [PEnter 1; CReg 2 [1]; PEnter 3; CInject 4 3; CReg 4 [3; 1]; PExit 3; CInject 6 1; CReg 6 [1];
+                   CInject 4 1; CInject 5 3; CReg 5 [3]; CDone 5; CDone 4; CDone 6; CDone 2;
+                   CDone 2; CDone 4; CDone 6; CDone 5; PExit 1]%N.
 Proof. vm_compute. split; reflexivity. Qed.
